@@ -27,6 +27,11 @@ package ggql
 //@ fieldinv Subscription.field: v != nil
 //@ -- well-formed registry: entries are subscriptions with a subscriber and a field (what NewSubscription builds)
 //@ spec regOk(ss []*Subscription) bool = forall k int {ss[k]} :: 0 <= k && k < len(ss) ==> ss[k] != nil && ss[k].sub != nil && ss[k].field != nil
+//@ -- lock invariant of the registry (C20, concurrent reading): whoever acquires root.subLock finds a well-formed
+//@ -- registry and has to leave one behind
+//@ spec regNonNil(ss []*Subscription) bool = forall k int {ss[k]} :: 0 <= k && k < len(ss) ==> ss[k] != nil
+//@ lockinv Root.subLock: regNonNil(self.subscriptions)
+//@ fieldinv Subscription.sub: v != nil
 //@ -- a subscriber is registered at most once (assumed of the application: the ghost counters are per subscriber)
 //@ spec distinctSubscribers(ss []*Subscription) bool = forall i int, j int {ss[i], ss[j]} :: 0 <= i && i < j && j < len(ss) ==> ss[i].sub != ss[j].sub
 //@ -- number of subscriptions in ss[lo:] whose subscriber matches the event id
@@ -38,7 +43,7 @@ package ggql
 
 //@ func (*Root).subscribe
 //@   props C19
-//@   check panic {C03}
+//@   check panic {C03,C20}
 //@   check lock {C20}
 //@   requires root != nil && sub != nil
 //@   requires[unlocked]{C20} !held(root.subLock)
@@ -51,7 +56,7 @@ package ggql
 
 //@ func (*Root).Unsubscribe
 //@   props C19
-//@   check panic {C03}
+//@   check panic {C03,C20}
 //@   check lock {C20}
 //@   requires root != nil
 //@   requires !held(root.subLock)
@@ -59,19 +64,21 @@ package ggql
 //@   requires distinctSubscribers(root.subscriptions)
 //@   ensures[len] len(root.subscriptions) == old(len(root.subscriptions)) - cnt
 //@   ensures[count] cnt == old(cntFrom(root.subscriptions, 0, id))
-//@   ensures[none-left]{C19,C20} forall k int {root.subscriptions[k]} :: 0 <= k && k < len(root.subscriptions) ==> !root.subscriptions[k].sub.Match(id)
+//@   ensures[none-left]{C19} forall k int {root.subscriptions[k]} :: 0 <= k && k < len(root.subscriptions) ==> !root.subscriptions[k].sub.Match(id)
 //@   ensures[kept-from-old] forall k int {root.subscriptions[k]} :: 0 <= k && k < len(root.subscriptions) ==> (exists j int {old(root.subscriptions[j])} :: 0 <= j && j < old(len(root.subscriptions)) && root.subscriptions[k] == old(root.subscriptions[j]))
 //@   ensures[all-kept] forall j int {old(root.subscriptions[j])} :: 0 <= j && j < old(len(root.subscriptions)) && !old(root.subscriptions[j].sub).Match(id) ==> (exists k int {root.subscriptions[k]} :: 0 <= k && k < len(root.subscriptions) && root.subscriptions[k] == old(root.subscriptions[j]))
 //@   ensures[cleanup-once] forall j int {old(root.subscriptions[j])} :: 0 <= j && j < old(len(root.subscriptions)) && old(root.subscriptions[j].sub).Match(id) ==> #unsub[old(root.subscriptions[j].sub)] == old(#unsub[root.subscriptions[j].sub]) + 1
 //@   ensures[cleanup-only] forall s Subscriber {#unsub[s]} :: (forall j int {old(root.subscriptions[j])} :: 0 <= j && j < old(len(root.subscriptions)) ==> old(root.subscriptions[j].sub) != s || !s.Match(id)) ==> #unsub[s] == old(#unsub[s])
 //@   ensures[no-send] #send == old(#send)
 //@   ensures[locks-balanced]{C20} held == old(held)
-//@   loop 0: invariant[bounds] -1 <= i && i < len(root.subscriptions) && i < old(len(root.subscriptions))
+//@   loop 0: invariant[bounds]{C03,C20} -1 <= i && i < len(root.subscriptions)
+//@           invariant[bounds-old] i < old(len(root.subscriptions))
 //@           invariant[held]{C20} held(root.subLock)
 //@           invariant[len] len(root.subscriptions) == old(len(root.subscriptions)) - cnt
 //@           invariant[ok] regOk(root.subscriptions)
+//@           invariant[entries]{C03,C20} regNonNil(root.subscriptions)
 //@           invariant[prefix] forall k int {root.subscriptions[k]} :: 0 <= k && k <= i ==> root.subscriptions[k] == old(root.subscriptions[k])
-//@           invariant[none-left]{C19,C20} forall k int {root.subscriptions[k]} :: i < k && k < len(root.subscriptions) ==> !root.subscriptions[k].sub.Match(id)
+//@           invariant[none-left]{C19} forall k int {root.subscriptions[k]} :: i < k && k < len(root.subscriptions) ==> !root.subscriptions[k].sub.Match(id)
 //@           invariant[kept-from-old] forall k int {root.subscriptions[k]} :: i < k && k < len(root.subscriptions) ==> (exists j int {old(root.subscriptions[j])} :: i < j && j < old(len(root.subscriptions)) && root.subscriptions[k] == old(root.subscriptions[j]))
 //@           invariant[all-kept] forall j int {old(root.subscriptions[j])} :: i < j && j < old(len(root.subscriptions)) && !old(root.subscriptions[j].sub).Match(id) ==> (exists k int {root.subscriptions[k]} :: i < k && k < len(root.subscriptions) && root.subscriptions[k] == old(root.subscriptions[j]))
 //@           invariant[count] cnt == old(cntFrom(root.subscriptions, i+1, id))
@@ -91,7 +98,7 @@ package ggql
 
 //@ func (*Root).AddEvent
 //@   props C19
-//@   check panic {C03}
+//@   check panic {C03,C20}
 //@   check lock {C20}
 //@   requires root != nil
 //@   requires[unlocked]{C20} forall m int {held[m]} :: !held[m]
@@ -111,6 +118,7 @@ package ggql
 //@   loop 0: invariant[bounds] rangeindex+1 <= old(len(root.subscriptions))
 //@           invariant[held]{C20} held(root.subLock)
 //@           invariant[only-registry-lock]{C12,C20} onlyRegistryLock(root)
+//@           invariant[entries]{C03,C20} regNonNil(root.subscriptions)
 //@           invariant[registry-unchanged] root.subscriptions == old(root.subscriptions) && (forall k int {root.subscriptions[k]} :: 0 <= k && k < len(root.subscriptions) ==> root.subscriptions[k] == old(root.subscriptions[k]))
 //@           invariant[count] cnt == old(cntUpTo(root.subscriptions, rangeindex+1, id))
 //@           invariant[sent-once] forall j int {old(root.subscriptions[j])} :: 0 <= j && j <= rangeindex && old(root.subscriptions[j].sub).Match(id) ==> #send[old(root.subscriptions[j].sub)] == old(#send[root.subscriptions[j].sub]) + 1
@@ -126,6 +134,7 @@ package ggql
 //@   loop 1: invariant[bounds] rangeindex+1 <= len(failed)
 //@           invariant[held]{C20} held(root.subLock)
 //@           invariant[ok] regOk(root.subscriptions)
+//@           invariant[entries]{C03,C20} regNonNil(root.subscriptions)
 //@           invariant[distinct] distinctEntries(root.subscriptions)
 //@           invariant[from-old] forall k int {root.subscriptions[k]} :: 0 <= k && k < len(root.subscriptions) ==> (exists j int {old(root.subscriptions[j])} :: 0 <= j && j < old(len(root.subscriptions)) && root.subscriptions[k] == old(root.subscriptions[j]))
 //@           invariant[removed] forall m int, k int {failed[m], root.subscriptions[k]} :: 0 <= m && m <= rangeindex && 0 <= k && k < len(root.subscriptions) ==> root.subscriptions[k] != failed[m]
@@ -133,9 +142,10 @@ package ggql
 //@           invariant[cleanup-once] forall m int {failed[m]} :: 0 <= m && m <= rangeindex ==> #unsub[failed[m].sub] == old(#unsub)[failed[m].sub] + 1
 //@           invariant[cleanup-only] forall s Subscriber {#unsub[s]} :: (forall m int {failed[m]} :: 0 <= m && m <= rangeindex ==> failed[m].sub != s) ==> #unsub[s] == old(#unsub)[s]
 //@           decreases len(failed) - rangeindex
-//@   loop 2: invariant[bounds] -1 <= i && i < len(root.subscriptions)
+//@   loop 2: invariant[bounds]{C03,C20} -1 <= i && i < len(root.subscriptions)
 //@           invariant[held]{C20} held(root.subLock)
 //@           invariant[ok] regOk(root.subscriptions)
+//@           invariant[entries]{C03,C20} regNonNil(root.subscriptions)
 //@           invariant[distinct] distinctEntries(root.subscriptions)
 //@           invariant[from-old] forall k int {root.subscriptions[k]} :: 0 <= k && k < len(root.subscriptions) ==> (exists j int {old(root.subscriptions[j])} :: 0 <= j && j < old(len(root.subscriptions)) && root.subscriptions[k] == old(root.subscriptions[j]))
 //@           invariant[removed] forall m int, k int {failed[m], root.subscriptions[k]} :: 0 <= m && m <= rangeindex && 0 <= k && k < len(root.subscriptions) ==> root.subscriptions[k] != failed[m]
